@@ -72,7 +72,7 @@ def raw_class(comp):
     return "inBox"
 
 
-def project(cid, comp, final, segmin):
+def project(cid, comp, final, segmin, given=None):
     nc = comp.named_coeffs
     d = nc.model_dump()
     mtype = nc.model_type.value if hasattr(nc.model_type, "value") else str(nc.model_type)
@@ -103,7 +103,10 @@ def project(cid, comp, final, segmin):
     ev = comp.eval(T)[0]
     scale = max(1.0, float(np.max(np.abs(comp.model))))
     curve = bool(np.max(np.abs(ev - comp.model)) <= 1e-9 * scale)
-    return {"id": cid, "final": bool(final), "mtype": mtype, "present": present, "finite": finite, "bpOrdered": bp_ordered, "bpInRange": bool(bp_in),
+    own = True
+    if given is not None:       # every (temperature, usage) day the component was fitted on is a day of the baseline handed to this fit
+        own = bool(np.isin(np.round(T, 9), given[0]).all() and np.isin(np.round(obs, 9), given[1]).all())
+    return {"id": cid, "final": bool(final), "ownData": own, "mtype": mtype, "present": present, "finite": finite, "bpOrdered": bp_ordered, "bpInRange": bool(bp_in),
             "slopeSigns": bool(signs), "slopesNonZero": bool(nonzero), "kNonNeg": bool(knn), "baseInRange": base_in, "funcOk": func, "limitsOk": limits,
             "curveOk": curve, "rawClass": raw_class(comp), "key": comp.model_key, "maxdiff": float(np.max(np.abs(ev - comp.model)))}
 
@@ -124,10 +127,12 @@ def realise(cin, variant):
             m.fit((em.BillingBaselineData if cin["fam"] == "billing" else em.DailyBaselineData)(pf, **pkw), ignore_disqualification=True)
         m.fit(b, ignore_disqualification=True)
         segmin = m.settings.segment_minimum_count
+        bdf = b.df
+        given = (np.round(bdf["temperature"].dropna().to_numpy(dtype=float), 9), np.round(bdf["observed"].dropna().to_numpy(dtype=float), 9))
         for name, comp in m.fit_components.items():
-            out["comps"].append(project("cand:" + name, comp, False, segmin))
+            out["comps"].append(project("cand:" + name, comp, False, segmin, given))
         for name, comp in m.model.items():
-            out["comps"].append(project("final:" + name, comp, True, segmin))
+            out["comps"].append(project("final:" + name, comp, True, segmin, given))
     except Exception as ex:
         import traceback
         out["res"] = type(ex).__name__
@@ -143,7 +148,7 @@ def corruptions(cin, out):
     import copy
     if out["res"] != "ok" or not out["comps"]:
         return
-    for f in ("finite", "bpOrdered", "bpInRange", "slopeSigns", "slopesNonZero", "kNonNeg", "baseInRange", "funcOk", "limitsOk", "curveOk"):
+    for f in ("ownData", "finite", "bpOrdered", "bpInRange", "slopeSigns", "slopesNonZero", "kNonNeg", "baseInRange", "funcOk", "limitsOk", "curveOk"):
         o = copy.deepcopy(out); o["comps"][-1][f] = not o["comps"][-1][f]
         if not o["comps"][-1][f]:
             yield f, o
